@@ -50,7 +50,8 @@ def harness_cases(chk, exe, race=False):
     tag = "%s-%d%s" % (chk.tier, chk.seed, "-race" if race else "")
     cases = os.path.join(cdir, tag + ".cases")
     meta = os.path.join(cdir, tag + ".meta")
-    stamp = "%s %s" % (_mtime(exe), _mtime(os.path.join(vlib.REPO, "v2/pkg/engine/resolve/resolve.go")))
+    import hashlib
+    stamp = hashlib.sha1(open(exe, "rb").read()).hexdigest()
     with vlib.Lock("c12cache"):
         if os.path.exists(cases) and os.path.exists(meta):
             m = open(meta).read().split("\n")
